@@ -368,6 +368,13 @@ impl LogWriter for Recorder {
         Ok(())
     }
     fn max_log_level(&self) -> LevelFilter {
+        // a schedule point that belongs to the harness: flexi_logger asks every writer for its
+        // level while it recomputes the global maximum, i.e. between taking over a specification
+        // and setting the facade's max level (only acts in park mode, on controlled threads)
+        if crate::hooks::h().mode.load(std::sync::atomic::Ordering::SeqCst) == crate::hooks::MODE_PARK {
+            use flexi_logger::verif_hooks::Handler;
+            let _ = crate::hooks::h().point("writer.max_log_level", None);
+        }
         self.ceiling
     }
 }
